@@ -3,6 +3,7 @@
   (`DuplicateId` is raised otherwise): the builder's `seen_ids` holds every xml:id value of the
   nodes built so far, and no value occurs twice among them.
 -/
+import XotModel.Lemmas.ParseQName
 import XotModel.Lemmas.AcceptedRun
 
 namespace XotModel.Accepted
@@ -207,6 +208,7 @@ theorem kind_idOf {v : Value} (h : v.isElement = true ∨ v = .document) : idOf 
   · subst h; rfl
 
 theorem step_ids {b b' : Builder} (t : Token) (ha : AccInv b) (h : IdInv b) (hr : b.step t = .ok b') : IdInv b' := by
+  replace hr := Builder.step_ok_core hr
   have hleave : ∀ (b1 b2 : Builder) (node : Path) (sp : StrSpan), b1.leave node sp = .ok b2 → IdInv b →
       b1.cur = b.cur → b1.parents = b.parents → b1.seenIds = b.seenIds → IdInv b2 := by
     intro b1 b2 node sp hl hi h1 h2 h3
@@ -227,7 +229,7 @@ theorem step_ids {b b' : Builder} (t : Token) (ha : AccInv b) (h : IdInv b) (hr 
         · split at hp
           · cases hp
           · simp only [Step.ok.injEq] at hp; subst hp; exact ⟨h.nodup, h.seen⟩
-    simp only [Builder.step] at hr
+    simp only [Builder.stepCore] at hr
     split at hr
     · exact hsame _ _ _ hr
     · split at hr
@@ -241,7 +243,7 @@ theorem step_ids {b b' : Builder} (t : Token) (ha : AccInv b) (h : IdInv b) (hr 
             · cases hr
             · simp only [Step.ok.injEq] at hr; subst hr; exact ⟨h.nodup, h.seen⟩
   | text t =>
-    simp only [Builder.step, Builder.text] at hr
+    simp only [Builder.stepCore, Builder.text] at hr
     split at hr
     · cases hr
     · rename_i content _
@@ -249,21 +251,21 @@ theorem step_ids {b b' : Builder} (t : Token) (ha : AccInv b) (h : IdInv b) (hr 
       obtain ⟨e1, e2⟩ := addText_ids b content
       exact h.of_perm (by simp only [e1]; exact List.Perm.refl _) e2
   | cdata t sp =>
-    simp only [Builder.step, Builder.cdata] at hr
+    simp only [Builder.stepCore, Builder.cdata] at hr
     split at hr
     · simp only [Step.ok.injEq] at hr; subst hr; exact h
     · simp only [Step.ok.injEq] at hr; subst hr
       obtain ⟨e1, e2⟩ := addText_ids b (replaceCr (replaceCrLf t.text))
       exact h.of_perm (by simp only [e1]; exact List.Perm.refl _) e2
   | elementStart pfx loc sp =>
-    simp only [Builder.step, Builder.element, Step.ok.injEq] at hr
+    simp only [Builder.stepCore, Builder.element, Step.ok.injEq] at hr
     subst hr
     exact ⟨h.nodup, h.seen⟩
   | elementEnd e sp =>
     cases e with
     | «open» => exact openElement_ids h hr
     | close pfx loc =>
-      simp only [Builder.step] at hr
+      simp only [Builder.stepCore] at hr
       unfold Builder.closeElement at hr
       split at hr
       · cases hr
@@ -276,7 +278,7 @@ theorem step_ids {b b' : Builder} (t : Token) (ha : AccInv b) (h : IdInv b) (hr 
             · exact hleave _ _ _ _ hr h rfl rfl rfl
           · exact hleave _ _ _ _ hr h rfl rfl rfl
     | empty =>
-      simp only [Builder.step] at hr
+      simp only [Builder.stepCore] at hr
       cases hb : b.openElement with
       | ok b1 =>
         rw [hb] at hr
@@ -295,12 +297,12 @@ theorem step_ids {b b' : Builder} (t : Token) (ha : AccInv b) (h : IdInv b) (hr 
       | err e env => rw [hb] at hr; cases hr
       | panic => rw [hb] at hr; cases hr
   | comment t sp =>
-    simp only [Builder.step, Builder.comment, Step.ok.injEq] at hr
+    simp only [Builder.stepCore, Builder.comment, Step.ok.injEq] at hr
     subst hr
     obtain ⟨e1, e2⟩ := addLeaf_ids b (.comment (normalizeLineEnds t.text)) rfl
     exact h.of_perm (by simp only [e1]; exact List.Perm.refl _) e2
   | pi target content sp =>
-    simp only [Builder.step] at hr
+    simp only [Builder.stepCore] at hr
     split at hr
     · cases hr
     simp only [Builder.processingInstruction, Step.ok.injEq] at hr
@@ -310,14 +312,14 @@ theorem step_ids {b b' : Builder} (t : Token) (ha : AccInv b) (h : IdInv b) (hr 
         (content.map fun c => normalizeLineEnds c.text)) rfl
     exact h.of_perm (by simp only [e1]; exact List.Perm.refl _) e2
   | declaration v e s sp =>
-    simp only [Builder.step] at hr
+    simp only [Builder.stepCore] at hr
     split at hr
     · cases hr
     · simp only [Step.ok.injEq] at hr; subst hr; exact h
-  | dtdStart sp => simp [Builder.step] at hr
-  | dtdEnd sp => simp [Builder.step] at hr
-  | emptyDtd sp => simp [Builder.step] at hr
-  | entityDecl sp => simp [Builder.step] at hr
+  | dtdStart sp => simp [Builder.stepCore] at hr
+  | dtdEnd sp => simp [Builder.stepCore] at hr
+  | emptyDtd sp => simp [Builder.stepCore] at hr
+  | entityDecl sp => simp [Builder.stepCore] at hr
 
 theorem run_ids (ts : List Token) (lexErr : Option Nat) :
     ∀ {b b' : Builder}, AccInv b → IdInv b → (∀ t ∈ ts, t.accLex = true) → b.run ts lexErr = .ok b' → IdInv b' := by
